@@ -981,6 +981,79 @@ def check_table_pipeline(res):
         res.sample(case, 1)
 
 
+PDF_AGES = [("missing", None), ("older-2s", -2 * 10 ** 9), ("older-1ms", -10 ** 6), ("same", 0),
+            ("newer-1ms", 10 ** 6), ("newer-2s", 2 * 10 ** 9)]
+
+
+def check_pdf_ages(res):
+    """LaTeXToPDF on tex values fed to it directly (documented: without output.changed the modification
+    times decide): one or two tex files, every age of the pdf relative to its tex (missing; older or
+    newer by a millisecond or by two seconds; the same time), output.changed absent / True / False, both
+    overwrite settings. The converter is launched exactly for the files the docstring names, every value
+    comes out as its pdf path with output.changed telling whether it was redone."""
+    base = T0 * 10 ** 9 + 5 * 10 ** 8         # in the middle of a second: +-1 ms stays inside it
+    with scratch_dir(prefix="lena-verif-c19a-"):
+        os.makedirs("o")
+        for overwrite in (False, True):
+            for k in (1, 2):
+                for combo in itertools.product(itertools.product(range(len(PDF_AGES)), ("absent", True, False)),
+                                               repeat=k):
+                    case = {"law": "pdf-ages", "overwrite": overwrite,
+                            "files": [[PDF_AGES[a][0], str(ch)] for a, ch in combo]}
+                    vals, want_launch = [], []
+                    for i, (a, ch) in enumerate(combo):
+                        tex, pdf = os.path.join("o", "t%d.tex" % i), os.path.join("o", "t%d.pdf" % i)
+                        with open(tex, "w") as f:
+                            f.write("tex %d" % i)
+                        os.utime(tex, ns=(base, base))
+                        if os.path.exists(pdf):
+                            os.remove(pdf)
+                        delta = PDF_AGES[a][1]
+                        if delta is not None:
+                            with open(pdf, "w") as f:
+                                f.write("old pdf")
+                            os.utime(pdf, ns=(base + delta, base + delta))
+                        out = {"filetype": "tex"}
+                        if ch != "absent":
+                            out["changed"] = ch
+                        vals.append((tex, {"output": out, "name": "t%d" % i}))
+                        if overwrite or delta is None:
+                            redo = True
+                        elif ch == "absent":
+                            redo = delta < 0          # the tex is newer than the pdf
+                        else:
+                            redo = ch
+                        want_launch.append(redo)
+                    fine = all(os.stat(v[0]).st_mtime_ns == base for v in vals)
+                    env = M.ConverterEnv([])
+                    old = _l2p.subprocess
+                    _l2p.subprocess = M.FakeSubprocess(env)
+                    try:
+                        outs = list(lena.output.LaTeXToPDF(overwrite=overwrite, verbose=0).run(iter(vals)))
+                        got = ("ok", sorted(t for _, t in env.launches),
+                               sorted((o[0], _flag(o[1])) for o in outs))
+                    except Exception as e:  # noqa
+                        got = ("raised " + type(e).__name__,)
+                    finally:
+                        _l2p.subprocess = old
+                    pdfs = [os.path.join("o", "t%d.pdf" % i) for i in range(k)]
+                    want = ("ok", sorted(q for q, r in zip(pdfs, want_launch) if r),
+                            sorted((q, r) for q, r in zip(pdfs, want_launch)))
+                    if not fine:
+                        # a file system that keeps whole seconds only: the millisecond cases say nothing
+                        res.count("pdf_ages_skipped_coarse_timestamps")
+                        continue
+                    res.case(nontrivial=any(PDF_AGES[a][1] is not None and ch == "absent" for a, ch in combo),
+                             outcome=("pdf-ages", overwrite, repr(got)))
+                    if got != want:
+                        sub = [PDF_AGES[a][0] for a, ch in combo if ch == "absent"]
+                        res.violation(case, list(got), list(want),
+                                      {"law": "pdf-ages", "overwrite": overwrite,
+                                       "raised": got[0] if got[0] != "ok" else None,
+                                       "sub_second": any("1ms" in x for x in sub) and not any("2s" in x for x in sub)})
+        res.sample(case, 1)
+
+
 def check_group_flags(res):
     """group_plots: output.changed of the group is true if any member's is (and not true if none is)."""
     for k in (1, 2, 3):
@@ -1051,6 +1124,7 @@ def run_shard(p, tier):
     elif kind == "write-path":
         check_write_paths(res)
         check_table_pipeline(res)
+        check_pdf_ages(res)
     elif kind == "naming":
         elems = naming_elements(p["reduced"])
         part, nparts = p["part"]
@@ -1118,6 +1192,9 @@ def replay(case):
     elif law == "group-flags":
         check_group_flags(res)
         return [v for v in result_violations(res) if v["case"].get("flags") == case.get("flags")]
+    elif law == "pdf-ages":
+        check_pdf_ages(res)
+        return [v for v in result_violations(res) if v["case"] == case]
     return result_violations(res)
 
 
